@@ -103,7 +103,7 @@ def sig_of(rep, f):
 
 
 def validate_direction(ctx):
-    parts = ["small", "large"]
+    parts = [x for x in os.environ.get("VERIF_C12_PARTS", "small,large").split(",") if x]   # development knob
     for part in parts:
         res, reports = record_validate(ctx, part)
         if reports:
